@@ -148,7 +148,7 @@ func content(k, c string, n names, variant int) string {
 			}
 			return cut(createDoc(n.obj))
 		case "wrongtype":
-			return []string{`["Create"]`, `"Create"`, `{"operation":["Create"],"object":{"apiVersion":"v1","kind":"ConfigMap","metadata":{"name":"` + n.obj + `","namespace":"default"}}}`}[variant%3] + "\n"
+			return []string{`["Create"]`, `"Create"`, `{"operation":["Create"],"object":{"apiVersion":"v1","kind":"ConfigMap","metadata":{"name":"` + n.obj + `","namespace":"default"}}}`, `42`}[variant%4] + "\n"
 		case "unappliable":
 			return fmt.Sprintf(`{"operation":"MergePatch","apiVersion":"v1","kind":"ConfigMap","namespace":"default","name":%q,"mergePatch":{"data":{"a":"b"}}}`, n.obj+"-missing") + "\n"
 		}
@@ -162,7 +162,7 @@ func content(k, c string, n names, variant int) string {
 			}
 			return cut(metricDoc(n.metric))
 		case "wrongtype":
-			return []string{`["` + n.metric + `"]`, `"` + n.metric + `"`, `{"name":"` + n.metric + `","set":"seven"}`}[variant%3] + "\n"
+			return []string{`["` + n.metric + `"]`, `"` + n.metric + `"`, `{"name":"` + n.metric + `","set":"seven"}`, `42`}[variant%4] + "\n"
 		case "unappliable":
 			return fmt.Sprintf(`{"name":%q,"action":"bogus","value":1}`, n.metric) + "\n"
 		}
@@ -174,7 +174,7 @@ func content(k, c string, n names, variant int) string {
 		case "truncated":
 			return cut(v)
 		case "wrongtype":
-			return []string{`["allowed"]`, `"allowed"`, `{"allowed":"yes","message":"` + n.marker + `"}`}[variant%3] + "\n"
+			return []string{`["allowed"]`, `"allowed"`, `{"allowed":"yes","message":"` + n.marker + `"}`, `42`}[variant%4] + "\n"
 		}
 	case "conversion":
 		v := fmt.Sprintf(`{"convertedObjects":[{"apiVersion":"v1","kind":"ConfigMap","metadata":{"name":%q}}]}`, n.marker)
@@ -184,7 +184,7 @@ func content(k, c string, n names, variant int) string {
 		case "truncated":
 			return cut(v)
 		case "wrongtype":
-			return []string{`["convertedObjects"]`, `"convertedObjects"`, `{"failedMessage":5}`, `{"convertedObjects":"` + n.marker + `"}`}[variant%4] + "\n"
+			return []string{`["convertedObjects"]`, `"convertedObjects"`, `{"failedMessage":5}`, `{"convertedObjects":"` + n.marker + `"}`, `true`}[variant%5] + "\n"
 		}
 	}
 	return "?" // unknown class: the case is rejected before it runs
